@@ -17,7 +17,7 @@ use crate::rng::{Rng, H};
 use serde_json::{json, Value};
 use std::panic::{catch_unwind, AssertUnwindSafe};
 
-pub struct E2ECampaign { pub inner: KeyCampaign, pub quick_runs: u64, pub thorough_runs: u64 }
+pub struct E2ECampaign { pub inner: KeyCampaign, pub inner_tablet: Option<KeyCampaign>, pub quick_runs: u64, pub thorough_runs: u64 }
 
 #[derive(Clone, Debug)]
 pub struct CaseE { pub a: CaseA, pub b: CaseB }
@@ -36,13 +36,20 @@ impl E2ECampaign {
     inner.en.c06 = false; inner.en.c09 = false;
     // timer chords are part of what reaches the virtual keyboard end to end: make Special repeats common
     inner.force_special = true;
-    E2ECampaign { inner, quick_runs, thorough_runs }
+    // the oracles that are defined across a release-all also get runs with a tablet switch
+    let inner_tablet = if ["C01", "C02", "C03", "C04", "C07", "C19"].contains(&property) {
+      let mut t = KeyCampaign::new(property, source, quick_runs, thorough_runs).absorbing(absorbing).resets();
+      t.en.c06 = false; t.en.c09 = false; t.force_special = true;
+      Some(t)
+    } else { None };
+    E2ECampaign { inner, inner_tablet, quick_runs, thorough_runs }
   }
   pub fn generate(&self, seed: u64, thorough: bool) -> CaseE {
     let mut st = GenStats::default();
     let mut rng = Rng::new(crate::rng::mix(seed, 0xE2E));
     // swarm: one run in eight is a long burst (70-150 events arriving in a few big batches), one in
     // six holds many keys at once (up to 9), so that steps and batches get long
+    if let Some(tc) = &self.inner_tablet { if rng.chance(1, 3) { return self.generate_tablet(tc, seed, thorough, &mut rng); } }
     let burst = rng.chance(1, 8);
     let many_held = rng.chance(1, 6);
     let mut a = if burst || many_held {
@@ -68,9 +75,66 @@ impl E2ECampaign {
     }
     let swarm = |rng: &mut Rng, choices: &[u32]| if rng.chance(1, 2) { 0 } else { rng.pick(choices) };
     let cfg = FaultCfg { p_eintr: swarm(&mut rng, &[3, 10]), p_spurious_timeout: swarm(&mut rng, &[5, 20]), p_spurious_ready: swarm(&mut rng, &[5, 20]), p_latency: swarm(&mut rng, &[10, 40]), p_oversleep: swarm(&mut rng, &[20]), max_interrupts: rng.below(3) as u32 };
+    let mut cfg = cfg;
+    match rng.below(24) { 0 => cfg.p_spurious_timeout = 90, 1 => cfg.p_spurious_ready = 90, 2 => { cfg.p_eintr = 85; cfg.max_interrupts = 6 + rng.below(5) as u32; } _ => {} }
     let b = CaseB { layout: a.layout.clone(), layout_name: a.layout_name.clone(), kbd, tab: vec![], has_tablet: false, cfg, tape: vec![], fail_at: None, extra_ticks: rng.below(3) as u32, kbd_end_at: None, tab_end_at: None, hybrid: true, write_fault: None, read_fault: None };
     CaseE { a, b }
   }
+}
+
+impl E2ECampaign {
+  /// A run with a tablet switch: reset blocks of the key case become On ... Off on the switch
+  /// device, the unseen activity in between becomes key records the loop must ignore.
+  fn generate_tablet(&self, tc: &KeyCampaign, seed: u64, thorough: bool, rng: &mut Rng) -> CaseE {
+    let mut st = GenStats::default();
+    let mut a = tc.generate(seed, thorough, &mut st);
+    // every block gets its closing reset (the switch goes off again)
+    let mut ops: Vec<Op> = vec![];
+    let mut open = false;
+    for o in a.ops.drain(..) {
+      match &o {
+        Op::Reset => { open = !open; ops.push(o); }
+        Op::Unseen(_) => { if open { ops.push(o); } }
+        Op::Ev(_) => { if open { ops.push(Op::Reset); open = false; } ops.push(o); }
+      }
+      if ops.len() >= 100 { break; }
+    }
+    if open { ops.push(Op::Reset); }
+    a.ops = ops;
+    let has_special = a.layout.mappings.iter().any(|m| matches!(m.repeat, Repeat::Special { .. }));
+    let mut t = 0u64;
+    let mut kbd = vec![]; let mut tab = vec![];
+    let mut on = false;
+    for o in &a.ops {
+      t += if has_special && rng.chance(1, 5) { 150_000 + rng.below(400_000) as u64 } else { match rng.below(10) { 0..=3 => 0, 4..=6 => rng.below(5000) as u64, 7..=8 => 20_000 + rng.below(80_000) as u64, _ => 150_000 + rng.below(400_000) as u64 } };
+      match o { Op::Ev(e) | Op::Unseen(e) => kbd.push((t, e.clone())), Op::Reset => { on = !on; tab.push((t, on)); } }
+    }
+    let swarm = |rng: &mut Rng, choices: &[u32]| if rng.chance(1, 2) { 0 } else { rng.pick(choices) };
+    let cfg = FaultCfg { p_eintr: swarm(rng, &[3, 10]), p_spurious_timeout: swarm(rng, &[5, 20]), p_spurious_ready: swarm(rng, &[5, 20]), p_latency: swarm(rng, &[10, 40]), p_oversleep: swarm(rng, &[20]), max_interrupts: rng.below(3) as u32 };
+    let b = CaseB { layout: a.layout.clone(), layout_name: a.layout_name.clone(), kbd, tab, has_tablet: true, cfg, tape: vec![], fail_at: None, extra_ticks: rng.below(3) as u32, kbd_end_at: None, tab_end_at: None, hybrid: true, write_fault: None, read_fault: None };
+    CaseE { a, b }
+  }
+}
+
+/// With a tablet switch the order in which the loop read the events of the two devices is the
+/// order that counts (C12 is defined on it): the effective op sequence and what was written in
+/// answer to each op are taken from the trace. Writes are charged to the event read just before
+/// them; batches after a time-out are timer chords.
+pub fn ops_from_trace(trace: &[Item]) -> (Vec<Op>, Vec<Vec<Event>>, Vec<Vec<Event>>) {
+  let mut ops: Vec<Op> = vec![]; let mut outs: Vec<Vec<Event>> = vec![]; let mut chords: Vec<Vec<Event>> = vec![];
+  let mut tablet = false; let mut after_timeout = false;
+  for it in trace {
+    match it {
+      Item::Poll { res, .. } => { after_timeout = matches!(res, PollRes::TimedOut); }
+      Item::NextK { res: Some(e), .. } => { after_timeout = false; ops.push(if tablet { Op::Unseen(e.clone()) } else { Op::Ev(e.clone()) }); outs.push(vec![]); chords.push(vec![]); }
+      Item::NextT { res: Some(on), .. } => { after_timeout = false; tablet = *on; ops.push(Op::Reset); outs.push(vec![]); chords.push(vec![]); }
+      Item::Send { evs, .. } => {
+        if let Some(last) = outs.len().checked_sub(1) { if after_timeout { chords[last].extend(evs.iter().cloned()); } else { outs[last].extend(evs.iter().cloned()); } }
+      }
+      _ => {}
+    }
+  }
+  (ops, outs, chords)
 }
 
 /// Attribute what the loop wrote to the delivered key events. The written events (timer chords
@@ -124,9 +188,20 @@ pub fn attribute(layout: &Layout, delivered: &[Event], trace: &[Item]) -> (Vec<V
 pub fn execute_e(case: &CaseE, en: &En, record: Option<u64>, obs: &mut Obs) -> Result<(Option<Violation>, Outcome), String> {
   let c = case.b.clone();
   let out = catch_unwind(AssertUnwindSafe(|| { let mut bl = crate::wiresim::PipeLayer::new(); crate::loopsim::execute(&c, record, Some(&mut bl)) })).map_err(|e| panic_msg(&e))?;
+  // a run that hit the simulator's trace cap was cut short by an unplug the history knows nothing
+  // about (fast timers under a readiness storm can do that): it is not evaluated
+  if out.stats.trace_cap_hit > 0 { return Ok((None, out)); }
+  if case.b.has_tablet {
+    let (ops, steps, chords) = ops_from_trace(&out.trace);
+    let mut pre = Precomputed { steps, chords, i: 0, per_op: true };
+    let a = CaseA { layout: case.a.layout.clone(), layout_name: case.a.layout_name.clone(), dist: case.a.dist, ops };
+    let en2 = *en;
+    let v = catch_unwind(AssertUnwindSafe(|| execute_with(&a, &en2, obs, &mut pre))).map_err(|e| format!("oracle panicked: {}", panic_msg(&e)))?;
+    return Ok((v, out));
+  }
   let delivered: Vec<Event> = case.a.ops.iter().filter_map(|o| if let Op::Ev(e) = o { Some(e.clone()) } else { None }).collect();
   let (steps, chords, _note) = attribute(&case.a.layout, &delivered, &out.trace);
-  let mut pre = Precomputed { steps, chords, i: 0 };
+  let mut pre = Precomputed { steps, chords, i: 0, per_op: false };
   let a = case.a.clone(); let en2 = *en;
   let v = catch_unwind(AssertUnwindSafe(|| execute_with(&a, &en2, obs, &mut pre))).map_err(|e| format!("oracle panicked: {}", panic_msg(&e)))?;
   Ok((v, out))
@@ -177,6 +252,7 @@ impl Campaign for E2ECampaign {
     let s = &out.stats;
     acc.fault("io_latency_in_call", s.latency); acc.fault("spurious_readiness", s.spurious_ready); acc.fault("signal_interrupts_poll", s.eintr); acc.fault("arrival_during_drain", s.arrival_during_drain);
     acc.probe_n("real_driver_polls_cross_checked", s.real_polls_compared); acc.probe_n("wakeup_with_two_or_more_events", s.multi_event_wakeups);
+    acc.count("runs_cut_short_by_the_trace_cap_and_not_evaluated", out.stats.trace_cap_hit.min(1));
     acc.count("steps", obs.steps); acc.count("sim_us", out.sim_us); acc.count("mappings_fired", obs.fired); acc.count("driver_calls", out.trace.len() as u64);
     let delivered: Vec<Event> = case.a.ops.iter().filter_map(|o| if let Op::Ev(e) = o { Some(e.clone()) } else { None }).collect();
     if attribute(&case.a.layout, &delivered, &out.trace).2.is_some() { acc.count("runs_where_the_read_sequence_differs_from_the_delivered_one", 1); }
